@@ -147,6 +147,8 @@ class LowRankRootAddedDiagLinearOperator(AddedDiagLinearOperator):
         inv_quad_term, logdet_term = None, None
 
         if inv_quad_rhs is not None:
+            if inv_quad_rhs.dim() == 1:  # a single vector is a one-column matrix
+                inv_quad_rhs = inv_quad_rhs.unsqueeze(-1)
             self_inv_rhs = self._solve(inv_quad_rhs)
             inv_quad_term = (inv_quad_rhs * self_inv_rhs).sum(dim=-2)
             if reduce_inv_quad:
